@@ -71,6 +71,10 @@ func (t *HarfbuzzShaper) Shape(input Input) Output {
 	}
 	start = clamp(start, 0, len(runes))
 	end = clamp(end, 0, len(runes))
+	if input.Face == nil && start == end {
+		// an empty run selects no face (see [SplitByFace]) and has no glyph
+		return Output{Direction: input.Direction, Size: input.Size, Runes: Range{Offset: start}}
+	}
 	t.buf.AddRunes(runes, start, end-start)
 
 	// handle vertical sideways text
